@@ -313,6 +313,11 @@ def compile_sequence_equals_fresh(ctx, rule, cases, same_object=False):
 
 
 def observer_chain_rules(ctx, rule_drop, rule_keep):
+    """see _observer_chain_rules (the same obligations are decided through the program's own wiring by wired_chain_rules)"""
+    return _observer_chain_rules(ctx, rule_drop, rule_keep)
+
+
+def _observer_chain_rules(ctx, rule_drop, rule_keep):
     """InstructionObserverConsumer._process_instruction with the two observers an operation can install
     (RemoveEmptyInstructions first, ValidAddrObserver second): the byte-continuation pseudo instruction (mnemonic 'empty')
     is dropped - nothing of it reaches the stream - and every other instruction is kept: consume_instruction appends
@@ -345,7 +350,15 @@ def observer_chain_rules(ctx, rule_drop, rule_keep):
                 I.call_func(cc.find_method("finalize"), [], {}, cons, None, None)
                 return cons
             construct = f"CompleteConsumer.consume_instruction[{label}; observers: RemoveEmptyInstructions{' + ValidAddrObserver' if with_range else ''}]"
-            for path in I.explore(thunk):
+            from ..facts import AnalysisError as _AE
+            try:
+                paths_ = I.explore(thunk)
+            except _AE as exc:
+                # hooks that are not objects with observe_instruction cannot be installed by this harness: the obligations are
+                # decided by wired_chain_rules on the program's own wiring
+                ctx.notes.append(f"observer chain (harness wiring) not applicable: {exc}"[:200])
+                continue
+            for path in paths_:
                 if path.kind != "return":
                     if mnemonic.is_concrete() and mnemonic.text() == "call":
                         continue        # int() of an opaque target may raise: outside this rule
@@ -438,3 +451,49 @@ def one_yaml_loader(ctx, rule: str) -> int:
         from ..facts import AnalysisError
         raise AnalysisError("no YAML load found in the program (anchor vanished)")
     return n
+
+
+def wired_chain_rules(ctx, rule_drop, rule_keep) -> None:
+    """through the program's OWN wiring (MasterOfPuppets.perform_matching builds consumer and observers, however it hands
+    them over): a listing of a byte-continuation pseudo instruction followed by an ordinary instruction gives a searched
+    stream of exactly one record, the ordinary instruction's - with and without a configured valid_addr_range"""
+    from ..matchflow import load_file_summary, match_scenarios, parse_summary, produce_regex_summary
+    from ..models import Sym, make_interp
+    from ..values import Hole, ListV, Str
+    # the observers themselves are interpreted here (no summary of the tagging observer)
+    Im = make_interp(ctx.p, {"ObjdumpParserManual.parse": parse_summary, "Yaml2Regex.produce_regex": produce_regex_summary,
+                             "Yaml2Regex.load_file": load_file_summary}, max_paths=60000)
+    ins = ctx.p.find_class("Instruction")
+    T = lambda t: Str((Hole(t, "f", True),))
+
+    def feed_for(second):
+        def feed(I):
+            return [I.construct(ins, [], {"addr": T("A1"), "mnemonic": Str.lit("empty"), "operands": ListV([])}, None, None),
+                    I.construct(ins, [], {"addr": T("A2"), "mnemonic": Str.lit(second), "operands": ListV([T("OP")])}, None, None)]
+        return feed
+    sc = []
+    for second in ("mov", "call"):
+        for s_ in match_scenarios(Im, file_types=("assembly",), return_modes=("bool",), search_modes=("first_find", "all_finds"),
+                                  only_addrs=(False,), configs=({}, {"valid_addr_range": {"min": Sym("RANGE_MIN"), "max": Sym("RANGE_MAX")}}),
+                                  feed=feed_for(second)):
+            s_.cfg["second"] = second
+            sc.append(s_)
+    for s in sc:
+        construct = (f"perform_matching[{s.cfg['search_mode']}, range {'configured' if s.cfg['config'] else 'absent'}]: listing = empty pseudo "
+                     f"instruction, {'ordinary instruction' if s.cfg['second'] == 'mov' else 'direct call'}")
+        if s.path.kind != "return":
+            if any(isinstance(k, tuple) and k[0] == "noraise" and v is False for k, v, _ in s.path.conds):
+                continue        # the modelled regex timeout
+            if s.cfg["second"] == "call" and s.path.exc.type_name == "ValueError":
+                continue        # int() of an opaque branch target may raise: outside this rule
+            ctx.fail(rule_keep, construct, f"raises {s.path.exc.type_name}", "the operation raises on a two-line listing")
+            continue
+        streams = [Im.expr_of(e.kwargs.get("string")) for e in s.path.events if e.kind == "extern_call" and e.name.startswith("regex.")]
+        if len(streams) != 1:
+            ctx.fail(rule_keep, construct, f"{len(streams)} searches", "one search per operation")
+            continue
+        st = streams[0]
+        ctx.check("A1" not in st and "empty" not in st, rule_drop, construct, st[:160],
+                  "nothing of the byte-continuation pseudo instruction reaches the searched stream")
+        ctx.check(st.count("|") == 1 and "A2" in st, rule_keep, construct, st[:160],
+                  "the other instruction reaches the searched stream as exactly one record")
